@@ -19,6 +19,7 @@ import (
 var errNoStream = errors.New("c16: no such stream in recording pacer")
 
 type recPacer struct {
+	failClose bool
 	mu      sync.Mutex
 	inner   gcc.Pacer
 	writers map[uint32]interceptor.RTPWriter
@@ -66,11 +67,19 @@ func (p *recPacer) Close() error {
 	p.mu.Lock()
 	p.closes++
 	p.mu.Unlock()
+	var err error
 	if p.inner != nil {
-		return p.inner.Close()
+		err = p.inner.Close()
 	}
-	return nil
+	if p.failClose && err == nil {
+		// a user pacer (gcc.SendSideBWEPacer) whose Close reports an error: the estimator is
+		// closed all the same
+		err = errPacerClose
+	}
+	return err
 }
+
+var errPacerClose = errors.New("verif: pacer Close fails")
 
 func (p *recPacer) snapshot() []int {
 	p.mu.Lock()
